@@ -247,13 +247,13 @@ package scanner
 //@ func (*compactRecordQueue).push(cr)
 //@   props C17
 //@   nosafety
-//@   requires c != nil && c.list != nil
+//@   requires c != nil
 //@   modifies ghost.cq_pushes ghost.cq_last
 //@   ensures [the-mark-is-appended-as-given] cq_pushes == old(cq_pushes)+1 && typeis(cq_last, "*scanner.compactRecord") && asptr(cq_last, "*scanner.compactRecord") == cr
 //@ func (*scanner).logCompactHistory(revision)
 //@   props C17
 //@   nosafety
-//@   requires r != nil && r.compactHistories != nil && r.compactHistories.list != nil
+//@   requires r != nil && r.compactHistories != nil
 //@   modifies inferred:(*scanner).logCompactHistory
 //@   ensures [one-mark-with-this-revision] cq_pushes == old(cq_pushes)+1 && typeis(cq_last, "*scanner.compactRecord") && asptr(cq_last, "*scanner.compactRecord") != nil && asptr(cq_last, "*scanner.compactRecord").revision == revision && fresh(asptr(cq_last, "*scanner.compactRecord"))
 
